@@ -1,5 +1,5 @@
 """C03 Decoding does not depend on how the input is delivered - structural clauses."""
-from .. import frontend as F, ast as A, cfg as C, util as U, guards as G, inline as I
+from .. import frontend as F, ast as A, cfg as C, util as U, guards as G, inline as I, peval as P
 
 EXPLANATION = ('Decides structural necessary conditions of chunking-independence: (R03.1) every suspend point of the '
                'incremental JSON number/string sub-automata stores the state whose dispatch entry jumps back to the label that '
@@ -498,6 +498,67 @@ def r03_10(chk, facts):
                              'was consumed): the cursor reports a truncated document as complete' % (fn['n'], d.get('n')), None, fn['q'])
     chk.require(n >= 4, 'R03.10: only %d tested local error codes found in json_cursor.hpp' % n)
 
+def r03_11(chk, facts):
+    """Every kind of source hands a long value out of a scratch buffer that holds that value and nothing else."""
+    chk.rule('R03.11', 'scratch buffer of read_span: in every source whose read_span falls back to source_reader::read(*this, buffer, n) - which '
+                       'appends - the buffer is emptied on every path to that call; otherwise the span starts with the previous long value and a '
+                       'value read from an iterator range differs from the same bytes read from a stream or a contiguous buffer', floor=2)
+    n = 0
+    for fn in U.one_per_inst(sorted([f for f in facts.functions if f['n'] == 'read_span' and f['file'].endswith('source.hpp') and f.get('body') is not None], key=lambda f: bool(f.get('dep')))):
+        # source_reader<...>::read(*this, buffer, n) (an unresolved call in the template body: recognised by its arguments)
+        calls = [c for c in A.calls_in(fn['body'], no_lambda=True) if c.get('k') == 'CallExpr' and A.callee_name(c) == 'read' and len(c.get('args') or []) == 3 and
+                 any(y.get('k') == 'CXXThisExpr' for y in A.walk(c['args'][0]))]
+        if not calls: continue
+        g = C.CFG(fn['body'])
+        chk.analysed(fn)
+        for c in calls:
+            n += 1
+            bname = A.ref_name(c['args'][1]) or next((y.get('n') for y in A.walk(c['args'][1]) if y.get('k') == 'DeclRefExpr' and y.get('dk') in ('ParmVar', 'Var')), '')
+            clears = [nd for nd in g.rpo if nd.kind == 'stmt' and isinstance(nd.ast, dict) and any(A.callee_name(y) == 'clear' and any(z.get('k') == 'DeclRefExpr' and z.get('n') == bname for z in A.walk(y)) for y in A.calls_in(nd.ast))]
+            cn = g.node_of(c)
+            site = U.site(fn, 'append into %s' % bname)
+            if cn is not None and not g.can_reach(g.entry, [cn], avoid=clears): chk.ok('R03.11', site, {'class': A.strip_targs(fn.get('cls') or '').split('::')[-1], 'line': c.get('l')})
+            else:
+                chk.fail('R03.11', site, fn['file'], c.get('l'), '%s::read_span appends to `%s` through source_reader::read without `%s.clear()` on the way: the span handed out starts with what an earlier long value left there' % (
+                    A.strip_targs(fn.get('cls') or '').split('::')[-1], bname, bname), None, fn['q'])
+    chk.require(n >= 2, 'R03.11: only %d scratch-buffer reads found in source.hpp' % n)
+
+EVENT_GET = {'int64_value': ('long', 'long long', 'int64_t'), 'uint64_value': ('unsigned long', 'unsigned long long', 'uint64_t'), 'double_value': ('double',), 'bool_value': ('bool',)}
+
+def r03_12(chk, facts):
+    """The value taken out of an event has the type the event announces."""
+    chk.rule('R03.12', 'event kind and getter agree: where staj_cursor.hpp builds values from events under a switch over the event type, the '
+                       '`get<T>()` reached under the label of a numeric event reads the type of that event (uint64_value with uint64_t, '
+                       'int64_value with int64_t, double_value with double, bool_value with bool) - in every loop that does so (array '
+                       'elements, object members, single values), so that the iterators deliver what the decoder delivers', floor=8)
+    en = dict((v, k) for k, v in U.enum_by_suffix(facts, '::staj_events')['values'])
+    n = 0
+    # the instantiations the staj iterators of the reflect driver produce (template arguments of get<T> are resolved there)
+    rf = F.load(['reflect'], chk.tier)
+    if 'reflect' not in chk.units: chk.units.append('reflect')
+    for fn in U.one_per_inst([f for f in rf.functions if f['file'].endswith('staj_cursor.hpp') and f.get('body') is not None and not f.get('dep')]):
+        for sw in A.walk_no_lambda(fn['body']):
+            if sw.get('k') != 'SwitchStmt': continue
+            cur = None
+            for labels, st in P.PEval.switch_items(sw.get('body')):
+                if labels: cur = [en.get(lo) for lo, hi in labels if lo != 'default']
+                if st is None or not cur: continue
+                numeric = [l for l in cur if l in EVENT_GET]
+                if not numeric: continue
+                for y in A.walk_no_lambda(st):
+                    if y.get('k') == 'SwitchStmt': break
+                    if y.get('k') == 'CXXMemberCallExpr' and A.callee_name(y) == 'get' and y.get('ta'):
+                        t = y['ta'][0].replace('const ', '').strip()
+                        for lab in numeric:
+                            n += 1
+                            site = U.site(fn, 'case %s get<%s>@%d' % (lab, t, y.get('l', 0) - fn['l']))
+                            if t in EVENT_GET[lab] or t.split('::')[-1] in EVENT_GET[lab]: chk.ok('R03.12', site, None)
+                            else:
+                                chk.analysed(fn)
+                                chk.fail('R03.12', site, fn['file'], y.get('l'), '%s reads the value of a %s event with get<%s>() (line %s): the number is reinterpreted (an unsigned value above 2^63 comes out negative), '
+                                         'and this route disagrees with the decoder' % (fn['n'], lab, t, y.get('l')), None, fn['q'])
+    chk.require(n >= 8, 'R03.12: only %d getters under numeric event labels found in staj_cursor.hpp' % n)
+
 def run(chk, tier, only_rule=None):
     chk.explanation = EXPLANATION
     chk.not_decided = NOT_DECIDED
@@ -510,6 +571,8 @@ def run(chk, tier, only_rule=None):
     r03_8(chk, tier)
     r03_9(chk, tier)
     r03_10(chk, facts)
+    r03_11(chk, facts)
+    r03_12(chk, facts)
     from . import c02
     c02.r02_8(chk, facts)      # the first-chunk examination must not recur at later chunk boundaries
     from . import c05
